@@ -192,10 +192,12 @@ theorem claimBoostedYields_pool_le {s : St} {user farmAmt : Nat} {r : Weekly.St 
     (h : claimBoostedYields s user farmAmt = some r) :
     ∃ M, ∀ N, M ≤ N →
       psum N r.2.1.accumulated r.2.1.remaining + r.2.2 ≤ psum N s.b.accumulated s.b.remaining := by
+  have h0 := h
   unfold claimBoostedYields at h
   split at h
-  · simp only [Option.some.injEq] at h
-    subst h
+  · rename_i hc
+    obtain ⟨e1, e2, _⟩ := claimBoostedYields_none_spec hc h0
+    rw [e1, e2]
     exact ⟨0, fun N _ => Nat.le_refl _⟩
   · simp only [Option.bind_eq_bind, Option.bind_eq_some_iff, Option.pure_def, Option.some.injEq] at h
     obtain ⟨c', _, r', hr, rfl⟩ := h
